@@ -3,8 +3,8 @@
 The quantifier is over call histories.  Each case runs an ordered pair of operations with free arguments
 on the *same* wallet / node objects and compares every returned value with a stateless recomputation from
 the root (reference side); together with the frame check (root and pre-existing nodes unchanged, children
-lists only appended to) this is the one-step argument for histories of any length.  Thread interleavings
-are not explored (the engine executes one thread)."""
+lists only appended to) this is the one-step argument for histories of any length.  Thread schedules: one
+pre-emption between two derivations, the switch point being a solver variable (see interleave)."""
 from sx.runner import Case
 from sx.harness import Raised
 from sx.instrument import sx_str, sx_int_from_bytes as ifb
@@ -18,18 +18,29 @@ FUNCTIONS = ["btc_hd_wallet.bip32.PubKeyNode.__init__", "btc_hd_wallet.bip32.Pub
              "btc_hd_wallet.base_wallet.BaseWallet.address_generator", "btc_hd_wallet.base_wallet.BaseWallet.by_path",
              "btc_hd_wallet.base_wallet.BaseWallet.node_extended_keys", "btc_hd_wallet.base_wallet.BaseWallet.p2wpkh_address",
              "btc_hd_wallet.bip85.BIP85DeterministicEntropy.wif", "btc_hd_wallet.paper_wallet.PaperWallet.generate"]
-BOUNDS = {"histories": "every ordered pair of operations out of {by_path, ckd, generate_children, address, node_extended_keys, "
+BOUNDS = {"schedules": "two threads, ONE pre-emption: operation A (a derivation on one node) is suspended at a solver-chosen yield "
+                       "point -- before any call made by repository code (quick) or before any statement or call (thorough) --, "
+                       "operation B (a derivation on another node) runs to completion, A resumes, then both objects are used again "
+                       "from one thread; private and public nodes, real ckd.  More than one pre-emption, switches inside a "
+                       "statement's bytecode, and more than two threads are not explored.",
+          "histories": "every ordered pair of operations out of {by_path, ckd, generate_children, address, node_extended_keys, "
                        "BIP85 WIF, derive_path with a re-used (mutated) list, address_generator with a skip} with free arguments on shared "
                        "objects; the real ckd on two parents that share a key but not a chain code (private and public)",
-          "schedules": "not explored: single-threaded execution only"}
+          }
 STUBS = ["child derivation -> contract summary, except in the same-key cases which run the real ckd", "as C06 otherwise"]
 ASSUMPTIONS = ["CPython's list.append is atomic (premise for the thread clause, not checked)",
                "purity + frame for every single step imply history-independence for sequences of any length (stated argument)"]
-OUTSIDE = ["thread interleavings", "sequences longer than two operations as such (covered by the inductive argument)"]
+OUTSIDE = ["thread schedules with more than one pre-emption or with switches inside a single statement",
+           "sequences longer than two operations as such (covered by the inductive argument)"]
 LEVEL_TEXT = ("Every ordered pair of API operations with free arguments is executed on shared wallet/node objects; each result is "
               "compared by the solver with a stateless recomputation from the root, and the root and earlier nodes are shown unchanged.")
-LEVEL_NOTE = "Trusted: z3, ckd contract; interleavings across threads are outside the technique."
+LEVEL_NOTE = ("Trusted: z3, ckd contract.  Thread schedules: one pre-emption at statement/call granularity with the switch point a "
+              "solver variable; witnesses are replayed on two real threads.")
 OPS = ("by_path", "ckd", "children", "address", "xkeys", "bip85", "reuse", "generator")
+# possible thread switches: before every call made by repository code (always) and, in the thorough tier, also before
+# every statement of every repository function
+YIELD_POINTS = {"quick": False, "thorough": True}
+PREEMPT_REPLAY = {"max_points": 6000, "seconds": 900}
 
 
 def setup_sym(R):
@@ -207,6 +218,55 @@ def same_key(E, R, public):
         _real_ckd(E, R, False)
 
 
+def interleave(E, R, kind):
+    """two threads, one pre-emption: operation A (on one node / wallet) is suspended at a solver-chosen point, operation
+    B (on another node / wallet) runs to completion, A resumes; afterwards both objects are used once more from a single
+    thread.  Every result equals the stateless reference -- shared mutable state that is torn by the switch shows up
+    either in A, in B, or in the requests that follow."""
+    _real_ckd(E, R, True)
+    try:
+        public = kind == "pub"
+        k1, kb1 = cm.sym_scalar(E, "k")
+        k2, kb2 = cm.sym_scalar(E, "k2")
+        c1, c2 = E.bytes("c", 32), E.bytes("c2", 32)
+        bits = 31 if public else 32
+        # A derives a hardened child (reads the private key) on private nodes; B's index is free
+        i = E.bv("i", bits) if public else E.bv("i", 32, lo=HARD)
+        j = E.bv("j", bits)
+        i2, j2 = i, j                   # the later single-threaded requests repeat the two derivations
+        if public:
+            n1 = R.bip32.PubKeyNode(key=E.H.sec(k1), chain_code=c1)
+            n2 = R.bip32.PubKeyNode(key=E.H.sec(k2), chain_code=c2)
+        else:
+            n1 = R.bip32.PrvKeyNode(key=kb1, chain_code=c1)
+            n2 = R.bip32.PrvKeyNode(key=kb2, chain_code=c2)
+        reqs = [(k1, c1, i), (k2, c2, j), (k2, c2, j2), (k1, c1, i2)]
+        two = [cm.ckd_priv(E, k1, c1, i), cm.ckd_priv(E, k2, c2, j)]
+        if any(r[0] == "invalid" for r in two):
+            return "invalid"
+        refs = [two[0], two[1], two[1], two[0]]
+        if public and E.symbolic:
+            # IL = 0 corner of the ecdsa fallback on the public side (see C02): outside this case
+            for (k, c, x), r in zip(reqs, refs):
+                E.assume(r[0] != k)
+        ra, rb = E.preempt(lambda: n1.ckd(i), lambda: n2.ckd(j))
+        rc = E.run(n2.ckd, j2)
+        rd = E.run(n1.ckd, i2)
+        got, exp = [], []
+        for r, ref in zip((ra, rb, rc, rd), refs):
+            if isinstance(r, Raised) or r is None:
+                if public and not E.symbolic:
+                    continue
+                E.fail("interleaved derivations: every result equals the stateless reference")
+                continue
+            got.append([r.key, r.chain_code])
+            exp.append([E.H.sec(ref[0]) if public else ser(ref[0], 32), ref[1]])
+        E.check_eq(got, exp, "interleaved derivations: every result equals the stateless reference")
+        return "ok"
+    finally:
+        _real_ckd(E, R, False)
+
+
 def generate_twice(E, R, ln1, ln2, same_account):
     from props import C06
     return C06.generate_twice(E, R, False, ln1, ln2, same_account)
@@ -255,6 +315,9 @@ def cases(tier):
         for b in OPS:
             cs.append(Case("pair[%s,%s]" % (a, b), "pair", dict(a=a, b=b, testnet=(len(a) + len(b)) % 2 == 0), weight=5, max_paths=5000,
                            need=("no request alters the root key",)))
+    for kind in ("prv", "pub"):
+        cs.append(Case("interleave[%s]" % kind, "interleave", dict(kind=kind), weight=60, max_paths=20000,
+                       need=("interleaved derivations: every result equals the stateless reference",)))
     for pub in (False, True):
         cs.append(Case("same_key[public=%s]" % pub, "same_key", dict(public=pub), weight=20,
                        need=("child depends on its own parent's key AND chain code, not on earlier derivations",)))
